@@ -36,7 +36,7 @@ Holds(cond, v) ==
       [] cond.type = "RatioIn01" -> 0 < v /\ v <= 10            \* tenths
       [] cond.type = "Below" -> v < cond.b                        \* tenths of the bound's unit
       [] cond.type = "OpenAngle" -> (0 < v /\ v < 4) \/ (-4 < v /\ v < 0)   \* quarter turns
-      [] cond.type = "Requires" -> v = 1                           \* 1: precondition established, 0: not
+      [] cond.type = "Requires" -> v = 1                           \* 1: precondition established, 0: never, 2: established and undone again
       [] cond.type = "Unique" -> v = 1                             \* number of clamps put on the vertex
       [] cond.type = "Exists" -> v = 1                             \* 1: matches a vertex, 0: does not
 
@@ -51,7 +51,7 @@ Classes(cond) ==
       [] cond.type = "RatioIn01" -> {-1, 0, 1, 10, 11}
       [] cond.type = "Below" -> {cond.b - 1, cond.b, cond.b + 1}
       [] cond.type = "OpenAngle" -> {-5, -4, -1, 0, 1, 3, 4, 5}
-      [] cond.type = "Requires" -> {0, 1}
+      [] cond.type = "Requires" -> {0, 1, 2}
       [] cond.type = "Unique" -> {1, 2}
       [] cond.type = "Exists" -> {0, 1}
 
